@@ -222,7 +222,9 @@ def check_property(pid, tier, seed, replay_only=None):
         if 'seq' in f: body['seq'] = f['seq']
         if 'sweep' in f: body['sweep'] = f['sweep']; body['desc'] = f.get('desc', '')
         with open(tmp, 'w') as fo: json.dump(body, fo)
-        if f.get('confirmed') or confirm_replay(bins[unit['name']], tmp, f.get('kind'), unit):
+        if len(violations) >= 6:
+            notes.append('further failure not confirmed (6 violations already reported): %s %s' % (f.get('kind'), f.get('desc', '')[:120])); return
+        if f.get('confirmed') or confirm_replay(bins[unit['name']], tmp, f.get('kind'), unit, times=1 if 'sweep' in f else 3):
             p = write_replay(pid, unit, f, 'new')
             violations.append((p, f))
         else:
